@@ -166,5 +166,11 @@ def run(ctx, report: Report) -> None:
     from .e2ematch import boolean_algebra_table
     boolean_algebra_table(ctx, r7, deep=(ctx.tier == 'thorough'))
 
+    # the logical pseudo-classes under every spelling of their names (a spelling that loses the negation / forgiving / relative
+    # flag turns :not() into :is())
+    from .e2etab import equivalent_spellings_table
+    equivalent_spellings_table(ctx, r6, only=(':not', ':is', ':has', 'pseudo-class name'))
+
+
 
 
